@@ -16,6 +16,6 @@ MANIFEST = {
                   'datagram is handed to exactly one application - the one bound to (destination address, port), else the one bound to (0.0.0.0, port), never another - with the payload unchanged '
                   '(8-byte header stripped) and a session whose endpoints are (destination, port) local and the true (source, port) remote; that a second bind of a bound endpoint is refused and '
                   'leaves the table unchanged; and that a datagram for which no binding exists is dropped with an error and changes nothing.',
-    'level_note': 'Only the UDP layer of one machine is decided. The quantifier\'s machine sets, ARP on/off and arrival orders go through the async Network/Pci/Arp path and are outside; so is the '
+    'level_note': 'Only the UDP layer of one machine is decided (listen/demux, and the synchronous prefix of the async open_and_listen: which socket it binds). The quantifier\'s machine sets, ARP on/off and arrival orders go through the async Network/Pci/Arp path and are outside; so is the '
                   'IPv4-layer lookup in Ipv4::demux. Trusts mirx and its environment models (listed in the evidence) and z3; violations are re-run natively on a real Machine with recording protocols.',
 }
